@@ -449,7 +449,7 @@ class P(core.Prop):
         for i in range(3):
             ops.append(['ack', 0, rng.random() < 0.88])
             if i == 0:
-                ops.append(['progress', 0, rng.choice([5, 10, 50])])
+                ops.append(['progress', 0, rng.choice([5, 10, 50, 90, 99])])
             if i == 1 and rng.random() < 0.3:
                 ops.append(['status', 0])
         if second and ops.count(['connok']) == 1:
